@@ -7,7 +7,7 @@ The random draw is an explicit argument of the Coq model, so the implementation 
 (c) auxiliary only: the draw NumPy documents for the same seed (choice(N, n, replace=False)) fed to the model.
 Uniformity is a statistical TEST (chi-square, false-alarm probability 1e-9 per statistic), labelled as such.
 NumPy's global generator is seeded from ctx.rng before every implementation call."""
-import itertools, math
+import itertools, math, os
 from decimal import Decimal, getcontext
 from fractions import Fraction
 import numpy as np
@@ -34,16 +34,76 @@ def _as_int(x):
     return int(f)
 
 
+INT_DTYPES = ['int8', 'uint8', 'int16', 'uint16', 'int32', 'uint32', 'int64', 'uint64']
+
+
+def _fits(v, dt):
+    """every entry of v is representable in the integer dtype dt"""
+    ii = np.iinfo(dt)
+    return all(isinstance(x, int) and ii.min <= x <= ii.max for x in v)
+
+
+def _series_index(N, var):
+    if var == 'shifted':
+        return list(range(5, 5 + N))
+    if var == 'permuted':
+        return list(range(N))[::-1]
+    if var == 'string':
+        return ['c%d' % (N - i) for i in range(N)]
+    if var == 'duplicated':
+        return [i // 2 for i in range(N)]
+    return None
+
+
 def _container(v, kind):
-    if kind == 'list':
+    """the caller's vector of numbers. kind = base[:variant]: list[:npints], tuple, ndarray[:<dtype>],
+    series[:shifted|permuted|string|duplicated|Int64] (index variants: the functions work by POSITION, never by label)"""
+    base, _, var = kind.partition(':')
+    if base == 'list':
+        if var == 'npints':
+            return [(np.int64(x) if i % 2 else np.int32(x)) if isinstance(x, int) else x for i, x in enumerate(v)]
         return list(v)
-    if kind == 'tuple':
+    if base == 'tuple':
         return tuple(v)
-    if kind == 'ndarray':
+    if base == 'ndarray':
+        if var:
+            return np.array(v, dtype=var)
         return np.array(v, dtype=int) if all(isinstance(x, int) for x in v) else np.array(v)
-    if kind == 'series':
-        return pd.Series(v)
+    if base == 'series':
+        if var == 'Int64':
+            return pd.Series(list(v), dtype='Int64')
+        return pd.Series(list(v), index=_series_index(len(v), var))
     raise ValueError(kind)
+
+
+def _typed(v, t):
+    """v as the scalar type named t ('int', 'float', 'np.int64', 'np.float64', ...); None / 'py': unchanged"""
+    if t in (None, 'py'):
+        return v
+    if t == 'int':
+        return int(v)
+    if t == 'float':
+        return float(v)
+    return getattr(np, t[3:])(v)
+
+
+def _content(obj):
+    """printable snapshot of the caller's vector (to see whether a call altered it)"""
+    if isinstance(obj, pd.DataFrame):
+        return [repr(x) for x in _ds_keys(obj, 'dataframe')] + [repr(list(obj.columns))]
+    if isinstance(obj, pd.Series):
+        return [repr(x) for x in obj.tolist()] + [repr(obj.index.tolist())]
+    if isinstance(obj, np.ndarray):
+        return [repr(x) for x in obj.tolist()] + [str(obj.dtype)]
+    return [repr(x) for x in obj]
+
+
+def _refill(obj, new):
+    """the caller overwrites one preallocated object in place (same length)"""
+    if isinstance(obj, pd.Series):
+        obj.iloc[:] = list(new)
+    else:
+        obj[:] = list(new)
 
 
 def _ln_fraction(q):
@@ -54,11 +114,14 @@ def _ln_fraction(q):
 
 
 # ------------------------------------------------------------------ subsample
-def _sub_call(counts, n, seed, kind):
+def _sub_call(counts, n, seed, kind, ntype='int'):
     from pyrepseq.stats import subsample
     arg = _container(counts, kind)
     np.random.seed(seed)
-    return call_impl(subsample, arg, n)
+    return call_impl(subsample, arg, _typed(n, ntype))
+
+
+SUB_MODEL_MAX = 1200        # the model under a recovered draw is quadratic in the total: run up to this total / 400 categories
 
 
 def _sub_output_pairs(res):
@@ -79,73 +142,212 @@ def _sub_output_pairs(res):
     return pairs, None
 
 
-def check_subsample(ctx, cases, tag):
-    """cases: list of (counts, n, seed, container kind). All decided in two oracle batches."""
-    impl = [_sub_call(*c) for c in cases]
+def check_subsample(ctx, cases, tag, results=None, reps=None):
+    """cases: list of (counts, n, seed, container kind[, type of n]). All decided in two oracle batches.
+    results / reps: implementation answers already obtained (call sequences on one object) and their replays."""
+    cases = [tuple(c) + ('int',) * (5 - len(c)) for c in cases]
+    impl = results if results is not None else [_sub_call(*c) for c in cases]
     req1, slots = [], []
-    for k, ((counts, n, seed, kind), r) in enumerate(zip(cases, impl)):
+
+    def replay_of(k):
+        counts, n, seed, kind, ntype = cases[k]
+        if reps is not None:
+            return dict(reps[k])
+        return dict(func='subsample', counts=list(counts), n=n, numpy_seed=seed, container=kind, n_type=ntype)
+
+    for k, ((counts, n, seed, kind, ntype), r) in enumerate(zip(cases, impl)):
         total = sum(counts)
         ctx.count('subsample:%s' % ('n>total' if n > total else 'n=0' if n == 0 else 'n=total' if n == total else '0<n<total'))
         ctx.count('subsample:container=%s' % kind)
-        rep = dict(func='subsample', counts=list(counts), n=n, numpy_seed=seed, container=kind)
+        if ntype != 'int':
+            ctx.count('subsample:n as %s' % ntype)
+        if len(counts) > 255 or total > 2 ** 15 or (len(counts) and max(counts) > 255):
+            ctx.count('subsample:size %s' % ('>255 categories' if len(counts) > 255 else 'a count > 255 / total > 2**15'))
+        rep = replay_of(k)
         if n > total:
             ctx.case(nontrivial_key=('sub-refuse', tuple(counts), n))
             if r[0] != 'exc':
                 ctx.violation('property', 'subsample(%s, %d) with n larger than the total %d did not refuse: returned %s'
-                              % (list(counts), n, total, _brief(r[1])), dict(rep, impl=_brief(r[1])), site='stats.subsample')
+                              % (_brief(list(counts)), n, total, _brief(r[1])), dict(rep, impl=_brief(r[1])), site='stats.subsample')
             continue
         if r[0] == 'exc':
             ctx.case()
-            ctx.violation('property', 'subsample(%s as %s, %d) raised %s although 0 <= n <= total = %d'
-                          % (list(counts), kind, n, r[1], total), dict(rep, impl=str(r)), site='stats.subsample')
+            ctx.violation('property', 'subsample(%s as %s, %s(%d)) raised %s although 0 <= n <= total = %d'
+                          % (_brief(list(counts)), kind, ntype, n, r[1], total), dict(rep, impl=str(r)), site='stats.subsample')
             continue
         pairs, problem = _sub_output_pairs(r[1])
         if pairs is None:
             ctx.case()
-            ctx.violation('property', 'subsample(%s, %d): %s' % (list(counts), n, problem), dict(rep, impl=_brief(r[1])),
+            ctx.violation('property', 'subsample(%s, %d): %s' % (_brief(list(counts)), n, problem), dict(rep, impl=_brief(r[1])),
                           site='stats.subsample')
             continue
-        np.random.seed(seed)
-        try:
-            doc_draw = [int(t) for t in np.random.choice(total, size=n, replace=False)] if total > 0 else []
-        except Exception:
-            doc_draw = None
-        slots.append((k, pairs, doc_draw, len(req1)))
-        req1 += [('api_c17_subsample_ok', [list(counts), n, pairs]), ('api_c17_canon_draw', [list(counts), pairs])]
+        small = total <= SUB_MODEL_MAX and len(counts) <= 400
+        doc_draw = None
+        if small:
+            np.random.seed(seed)
+            try:
+                doc_draw = [int(t) for t in np.random.choice(total, size=n, replace=False)] if total > 0 else []
+            except Exception:
+                doc_draw = None
+        slots.append((k, pairs, doc_draw, len(req1), small))
+        # (the recovered draw of a large case is not asked for: a list of n unary numbers up to the total)
+        req1 += [('api_c17_subsample_ok', [list(counts), n, pairs]), ('api_c17_canon_draw', [list(counts), pairs] if small else [[], []])]
         if doc_draw is not None:
             req1.append(('api_c17_subsample', [list(counts), doc_draw]))
     out1 = ctx.oracle.run_parallel(req1)
     req2, slots2 = [], []
-    for k, pairs, doc_draw, pos in slots:
-        counts, n, seed, kind = cases[k]
-        rep = dict(func='subsample', counts=list(counts), n=n, numpy_seed=seed, container=kind, impl=pairs)
+    for k, pairs, doc_draw, pos, small in slots:
+        counts, n, seed, kind, ntype = cases[k]
+        rep = dict(replay_of(k), impl=pairs if len(pairs) < 60 else _brief(pairs))
         ok, canon = out1[pos], out1[pos + 1]
         nontriv = 0 < n < sum(counts) and len([c for c in counts if c > 0]) >= 2
         ctx.case(sample=dict(rep, spec_ok=ok) if nontriv and k % 97 == 0 and len(ctx.samples) < 2 else None,
                  nontrivial_key=('sub', tuple(counts), n, tuple(pairs)) if nontriv else None)
         if isinstance(ok, Exception) or ok is not True:
             ctx.violation('property', 'subsample(%s as %s, %d) returned indices/counts %s: not (ascending distinct categories, '
-                          'positive counts summing to n, each at most the original count)' % (list(counts), kind, n, pairs),
+                          'positive counts summing to n, each at most the original count)' % (_brief(list(counts)), kind, n, _brief(pairs)),
                           rep, site='stats.subsample')
             continue
         if doc_draw is not None:
             m = out1[pos + 2]
             ctx.count('subsample:documented_draw_%s' % ('reproduces_output' if m == pairs else 'differs(auxiliary)'))
-        if k % 7 == 0 and len(ctx.vm_cases) < 25:
+        if k % 7 == 0 and len(ctx.vm_cases) < 25 and sum(counts) < 200:
             ctx.add_vm('api_c17_subsample_ok', [list(counts), n, pairs], ok)
+        if not small:
+            ctx.count('subsample:specification only (model under the recovered draw not run: large)')
+            continue
         slots2.append((k, pairs, canon, len(req2)))
         req2 += [('api_c17_valid_draw', [sum(counts), n, canon]), ('api_c17_subsample', [list(counts), canon])]
     out2 = ctx.oracle.run_parallel(req2)
     for k, pairs, canon, pos in slots2:
-        counts, n, seed, kind = cases[k]
+        counts, n, seed, kind, ntype = cases[k]
         valid, model = out2[pos], out2[pos + 1]
         if valid is not True or model != pairs:
             ctx.violation('correspondence', 'subsample(%s, %d) = %s passes the specification but the model does not reproduce it '
                           'from the recovered draw %s (valid=%s, model=%s)' % (list(counts), n, pairs, canon, valid, model),
-                          dict(func='subsample', counts=list(counts), n=n, numpy_seed=seed, container=kind, impl=pairs),
-                          site='stats.subsample')
-        elif k % 11 == 0 and len(ctx.vm_cases) < 40:
+                          dict(replay_of(k), impl=pairs), site='stats.subsample')
+        elif k % 11 == 0 and len(ctx.vm_cases) < 40 and sum(counts) < 200:
             ctx.add_vm('api_c17_subsample', [list(counts), canon], model)
+
+
+def check_subsample_sequences(ctx, seqs):
+    """seqs: list of (container kind, [(counts, n, numpy seed), ...]): ONE object built from the first count vector receives all
+    the calls in order; a step whose counts differ from the step before means the caller overwrote the object in place.
+    Every answer is judged against what the object held when the call was made; a call that alters the caller's vector is
+    reported as a difference from the (pure) model."""
+    from pyrepseq.stats import subsample
+    cases, results, reps = [], [], []
+    for kind, steps in seqs:
+        steps = [(list(c), n, sd) for c, n, sd in steps]
+        rep = dict(func='subsample_sequence', container=kind, steps=[[c, n, sd] for c, n, sd in steps])
+        obj = _container(steps[0][0], kind)
+        held = list(steps[0][0])
+        for j, (counts, n, seed) in enumerate(steps):
+            if j > 0 and counts != steps[j - 1][0]:
+                _refill(obj, counts)
+                held = list(counts)
+                ctx.count('subsample:sequence:call after the object was refilled in place')
+            elif j > 0:
+                ctx.count('subsample:sequence:repeated call on the same object')
+            before = _content(obj)
+            now = [int(x) for x in (obj.tolist() if hasattr(obj, 'tolist') else obj)]
+            np.random.seed(seed)
+            r = call_impl(subsample, obj, n)
+            cases.append((tuple(now), n, seed, kind))
+            results.append(r)
+            reps.append(dict(rep, step=j, held_before_call=now))
+            if _content(obj) != before:
+                ctx.violation('correspondence', 'subsample altered the caller\'s %s %s (call %d of the sequence): now %s - the model is a '
+                              'pure function of (counts, draw)' % (kind, held, j + 1, _brief(_content(obj))),
+                              dict(rep, step=j), site='stats.subsample')
+    check_subsample(ctx, cases, 'sequence', results=results, reps=reps)
+
+
+def check_huge(ctx):
+    """sizes beyond what the extracted model handles in reasonable time (unary numbers, quadratic list functions): the
+    SPECIFICATION itself is evaluated in Python - subsample: ascending distinct categories in range, positive counts, sum n, each
+    at most the original count; downsample: exactly maxseqs elements forming a sub-multiset / subset of rows."""
+    from collections import Counter
+    from pyrepseq.stats import subsample
+    from pyrepseq.distance import downsample
+    rng = ctx.rng
+    sub = [([1] * 66000, 300, 'list'), ([rng.choice([0, 1, 2]) for _ in range(70000)], None, 'ndarray'),
+           ([3, 10 ** 6, 0, 2 * 10 ** 5], 5000, 'list'), ([2 ** 16 + 1, 2 ** 15], 2 ** 16 + 2 ** 15, 'ndarray:int32')]
+    if not ctx.quick:
+        sub += [([rng.randint(0, 300) for _ in range(3000)], None, 'series:shifted'), ([1] * 140000, 139999, 'ndarray:uint8')]
+    for counts, n, kind in sub:
+        total = sum(counts)
+        n = total // 2 if n is None else n
+        for nn in (n, total + 1):
+            seed = _seed(ctx)
+            r = _sub_call(counts, nn, seed, kind)
+            rep = dict(func='subsample_huge', note='%d categories, total %d' % (len(counts), total), n=nn, numpy_seed=seed, container=kind)
+            ctx.count('subsample:huge (specification evaluated in Python)')
+            ctx.case(nontrivial_key=('sub-huge', len(counts), total, nn))
+            if nn > total:
+                if r[0] != 'exc':
+                    ctx.violation('property', 'subsample(%d categories of total %d, n=%d) did not refuse' % (len(counts), total, nn), rep,
+                                  site='stats.subsample')
+                continue
+            pairs, problem = _sub_output_pairs(r[1]) if r[0] == 'ok' else (None, 'raised %s' % r[1])
+            if pairs is not None:
+                idx = [a for a, _ in pairs]
+                if not all(x < y for x, y in zip(idx, idx[1:])):
+                    problem = 'categories not strictly ascending'
+                elif idx and idx[-1] >= len(counts):
+                    problem = 'category %d out of range' % idx[-1]
+                elif any(b <= 0 for _, b in pairs):
+                    problem = 'a non-positive count'
+                elif sum(b for _, b in pairs) != nn:
+                    problem = 'counts sum to %d, not n' % sum(b for _, b in pairs)
+                else:
+                    bad = [(a, b) for a, b in pairs if b > counts[a]]
+                    problem = 'category %d kept %d of %d items' % (bad[0] + (counts[bad[0][0]],)) if bad else None
+            if problem:
+                ctx.violation('property', 'subsample(%d categories of total %d as %s, n=%d): %s' % (len(counts), total, kind, nn, problem),
+                              dict(rep, impl=_brief(pairs)), site='stats.subsample')
+    # closed forms on large samples: 1 + n / sum ln(c / d) with 30-digit decimal logarithms, one per distinct value
+    from pyrepseq.stats import powerlaw_mle_alpha
+    for n in ([1000, 20000] if ctx.quick else [1000, 20000, 10 ** 5, 10 ** 6]):
+        c = [min(v, 10 ** 6) for v in _discrete_powerlaw(rng, n, rng.uniform(1.8, 3.0), 1)] + [0] * 7
+        rng.shuffle(c)
+        for m in METHODS:
+            cmin = rng.choice([1, 2, 3])
+            kind = rng.choice(['ndarray', 'series:permuted', 'list', 'ndarray:int32'])
+            d = Fraction(cmin) - (Fraction(1, 2) if m == 'continuitycorrection' else 0)
+            mult = Counter(x for x in c if x >= cmin)
+            doc = 1 + Fraction(sum(mult.values())) / sum(k * _ln_fraction(Fraction(x) / d) for x, k in mult.items() if Fraction(x) != d)
+            r = call_impl(powerlaw_mle_alpha, _container(c, kind), cmin, m)
+            ctx.count('mle:huge (documented closed form evaluated in Python)')
+            ctx.case(nontrivial_key=('mle-huge', n, m, cmin))
+            if r[0] != 'ok' or not close(float(r[1]), doc):
+                ctx.violation('property', 'powerlaw_mle_alpha(%d counts as %s, %s, %r) = %s but the documented closed form gives %.12g'
+                              % (len(c), kind, cmin, m, r[1], float(doc)), dict(func='mle_huge', n=n, cmin=cmin, method=m, container=kind),
+                              site='stats.powerlaw_mle_alpha')
+    pool = [''.join(rng.choice(AA) for _ in range(rng.randint(8, 18))) for _ in range(20000)]
+    for N, kind in [(2 ** 15 + 1, 'list'), (70000, 'ndarray'), (70000, 'dataframe'), (40000, 'series')]:
+        values = [rng.choice(pool) for _ in range(N)]
+        obj, keys = _ds_build(values, kind, None)
+        for m in (N - 1, N // 2, N, None):
+            seed = _seed(ctx)
+            np.random.seed(seed)
+            r = call_impl(downsample, obj, m)
+            rep = dict(func='downsample_huge', note='%d elements drawn from a pool of 20000' % N, container=kind, maxseqs=m, numpy_seed=seed)
+            ctx.count('downsample:huge (specification evaluated in Python)')
+            ctx.case(nontrivial_key=('ds-huge', N, kind, m))
+            if r[0] != 'ok':
+                ctx.violation('property', 'downsample(%s of %d elements, maxseqs=%s) raised %s' % (kind, N, m, r[1]), rep, site='distance.downsample')
+                continue
+            okeys = _ds_keys(r[1], kind)
+            inp = [k if _is_table(kind) else str(k) for k in keys]
+            if m is None or N <= m:
+                good = type(r[1]) is type(obj) and okeys == inp
+                what = 'is not the input unchanged'
+            else:
+                good = len(okeys) == m and not (Counter(okeys) - Counter(inp))
+                what = 'is not exactly maxseqs elements forming a sub-multiset of the input (%d returned)' % len(okeys)
+            if not good:
+                ctx.violation('property', 'downsample(%s of %d elements, maxseqs=%s) %s' % (kind, N, m, what), rep, site='distance.downsample')
 
 
 def _brief(v):
@@ -154,46 +356,108 @@ def _brief(v):
 
 
 # ------------------------------------------------------------------ downsample
+def _is_table(kind):
+    return kind.startswith('dataframe')
+
+
+def _cell(x):
+    """one table cell / label as a comparable key: missing values (None, NaN, pd.NA) are one token"""
+    if x is None or x is pd.NA or (isinstance(x, float) and x != x):
+        return '<NA>'
+    if isinstance(x, tuple):
+        return tuple(_cell(y) for y in x)
+    return x
+
+
+def _rows(df):
+    return [(_cell(lab),) + tuple(_cell(c) for c in row) for lab, row in zip(df.index.tolist(), df.itertuples(index=False, name=None))]
+
+
 def _ds_build(values, kind, labels=None):
-    """the caller's collection; returns (object, list of element keys in order)"""
-    if kind == 'list':
+    """the caller's collection; returns (object, list of element keys in order). kind = base[:variant]:
+    list, tuple, ndarray[:object], series[:str|string|category] (default: object dtype), index (pd.Index),
+    dataframe[:1col|nan|dupcols|multiindex|wide]"""
+    base, _, var = kind.partition(':')
+    if base == 'list':
         return list(values), list(values)
-    if kind == 'tuple':
+    if base == 'tuple':
         return tuple(values), list(values)
-    if kind == 'ndarray':
-        return np.array(values, dtype=str), list(values)
-    if kind == 'series':
-        return pd.Series(values, index=labels, dtype=object), list(values)
-    if kind == 'dataframe':
-        df = pd.DataFrame({'CDR3B': list(values), 'TRBV': ['TRBV%d' % (len(v) % 3) for v in values],
-                           'clonal_counts': [len(v) + 1 for v in values]}, index=labels)
-        return df, [(lab,) + tuple(row) for lab, row in zip(df.index.tolist(), df.itertuples(index=False, name=None))]
+    if base == 'ndarray':
+        return np.array(values, dtype=object if var == 'object' else str), list(values)
+    if base == 'series':
+        if var == 'str':
+            return pd.Series(list(values), index=labels), list(values)            # pandas' own inference (str dtype in pandas 3)
+        return pd.Series(list(values), index=labels, dtype={'': object, 'string': 'string', 'category': 'category'}[var]), list(values)
+    if base == 'index':
+        return pd.Index(list(values), dtype=object), list(values)
+    if base == 'dataframe':
+        N = len(values)
+        cols = {'CDR3B': list(values), 'TRBV': ['TRBV%d' % (len(str(v)) % 3) for v in values],
+                'clonal_counts': [len(str(v)) + 1 for v in values]}
+        if var == '1col':
+            cols = {'CDR3B': list(values)}
+        elif var == 'nan':          # missing cells: an unresolved V gene, a count that is NaN
+            cols['TRBV'] = [None if i % 2 else t for i, t in enumerate(cols['TRBV'])]
+            cols['clonal_counts'] = [float('nan') if i % 3 == 0 else float(c) for i, c in enumerate(cols['clonal_counts'])]
+        elif var == 'wide':
+            for j in range(9):
+                cols['x%d' % j] = [(i * (j + 2)) % 5 for i in range(N)]
+        index = labels
+        if var == 'multiindex':
+            labs = labels if labels is not None else list(range(N))
+            index = pd.MultiIndex.from_tuples([(lab, i % 2) for i, lab in enumerate(labs)], names=['sample', 'rep']) if N else None
+        df = pd.DataFrame(cols, index=index)
+        if var == 'dupcols':        # two value columns with one name
+            df.columns = ['CDR3B', 'v', 'v']
+        return df, _rows(df)
     raise ValueError(kind)
 
 
 def _ds_keys(obj, kind):
     """element keys of a result"""
     if isinstance(obj, pd.DataFrame):
-        return [(lab,) + tuple(row) for lab, row in zip(obj.index.tolist(), obj.itertuples(index=False, name=None))]
+        return _rows(obj)
     if isinstance(obj, pd.Series):
         return [str(x) for x in obj.tolist()]
-    return [str(x) for x in (obj.tolist() if isinstance(obj, np.ndarray) else list(obj))]
+    return [str(x) for x in (obj.tolist() if isinstance(obj, (np.ndarray, pd.Index)) else list(obj))]
 
 
-def check_downsample(ctx, cases):
-    """cases: list of (values, kind, labels, maxseqs, seed)"""
+DS_ORACLE_MAX = 2 * 10 ** 6      # len(input) * len(answer) up to which the extracted model decides
+
+
+def check_downsample(ctx, cases, shared=None):
+    """cases: list of (values, kind, labels, maxseqs, seed[, type of maxseqs]).
+    shared: {case number: (function returning the caller's (object, keys) at that moment, replay)} for call sequences on one object."""
     from pyrepseq.distance import downsample
+    cases = [tuple(c) + ('int',) * (6 - len(c)) for c in cases]
+    shared = shared or {}
     req, slots = [], []
-    for k, (values, kind, labels, maxseqs, seed) in enumerate(cases):
-        obj, keys = _ds_build(values, kind, labels)
-        before = _ds_keys(obj, kind) if kind != 'dataframe' else keys
+
+    def replay_of(k):
+        values, kind, labels, maxseqs, seed, mtype = cases[k]
+        if k in shared:
+            return dict(shared[k][1])
+        return dict(func='downsample', values=list(values), container=kind, labels=labels, maxseqs=maxseqs, numpy_seed=seed, maxseqs_type=mtype)
+
+    for k, (values, kind, labels, maxseqs, seed, mtype) in enumerate(cases):
+        obj, keys = shared[k][0]() if k in shared else _ds_build(values, kind, labels)
+        table = _is_table(kind)
+        before = _ds_keys(obj, kind) if not table else keys
         np.random.seed(seed)
-        r = call_impl(downsample, obj, maxseqs)
+        r = call_impl(downsample, obj, _typed(maxseqs, mtype) if maxseqs is not None else None)
         N = len(keys)
-        rep = dict(func='downsample', values=list(values), container=kind, labels=labels, maxseqs=maxseqs, numpy_seed=seed)
+        rep = replay_of(k)
         regime = 'None' if maxseqs is None else ('unchanged' if N <= maxseqs else 'reduced')
         ctx.count('downsample:%s' % regime)
         ctx.count('downsample:container=%s' % kind)
+        if mtype != 'int' and maxseqs is not None:
+            ctx.count('downsample:maxseqs as %s' % mtype)
+        if N >= 1000:
+            ctx.count('downsample:size >= 1000')
+        if any(len(str(v)) > 127 for v in values):
+            ctx.count('downsample:a sequence longer than 127')
+        if any(not isinstance(v, str) for v in values):
+            ctx.count('downsample:a missing element (None / NaN)')
         nontriv = regime == 'reduced' and 0 < maxseqs and len(set(keys)) >= 2
         if r[0] == 'exc':
             ctx.case()
@@ -218,10 +482,10 @@ def check_downsample(ctx, cases):
                 ctx.violation('property', 'downsample(%s of %d elements, maxseqs=%s) returned a %s, not the input unchanged'
                               % (kind, N, maxseqs, type(out).__name__), dict(rep, impl=_brief(out)), site='distance.downsample')
                 continue
-            if kind == 'dataframe' and (list(out.columns) != list(obj.columns)):
+            if table and (list(out.columns) != list(obj.columns)):
                 ctx.violation('property', 'downsample changed the columns of an unchanged table', rep, site='distance.downsample')
                 continue
-        elif kind == 'dataframe':
+        elif table:
             if not isinstance(out, pd.DataFrame) or list(out.columns) != list(obj.columns):
                 ctx.case()
                 ctx.violation('property', 'downsample(table, maxseqs=%s) returned %s: not a table with the same columns'
@@ -229,8 +493,8 @@ def check_downsample(ctx, cases):
                 continue
         code = {}
         for x in keys:
-            code.setdefault(x if kind == 'dataframe' else str(x), len(code) + 1)
-        xs = [code[x if kind == 'dataframe' else str(x)] for x in keys]
+            code.setdefault(x if table else str(x), len(code) + 1)
+        xs = [code[x if table else str(x)] for x in keys]
         fresh = len(code) + 1
         oc = []
         for x in okeys:
@@ -238,29 +502,40 @@ def check_downsample(ctx, cases):
                 oc.append(code[x])
             else:
                 oc.append(fresh)      # an element that is not in the input at all
+        if len(xs) * max(len(oc), 1) > DS_ORACLE_MAX:
+            # too large for the extracted list functions (quadratic): the specification itself, evaluated here
+            from collections import Counter
+            ctx.count('downsample:large answer (specification evaluated in Python)')
+            ctx.case(nontrivial_key=('ds-large', kind, N, maxseqs) if nontriv else None)
+            good = (oc == xs) if regime != 'reduced' else (len(oc) == maxseqs and not (Counter(oc) - Counter(xs)))
+            if not good:
+                what = ('is not the input unchanged' if regime != 'reduced' else
+                        'is not exactly maxseqs elements forming a sub-multiset of the input')
+                ctx.violation('property', 'downsample(%s of %d elements, maxseqs=%s(%s)) returned %d elements %s, which %s'
+                              % (kind, N, mtype, maxseqs, len(okeys), _brief([str(x) for x in okeys[:8]]), what), rep, site='distance.downsample')
+            continue
         slots.append((k, xs, oc, regime, nontriv, okeys, len(req)))
         req += [('api_c17_downsample_ok', [xs, maxseqs, oc]), ('api_c17_recover_draw', [xs, oc])]
     out1 = ctx.oracle.run_parallel(req)
     req2, slots2 = [], []
     for k, xs, oc, regime, nontriv, okeys, pos in slots:
-        values, kind, labels, maxseqs, seed = cases[k]
-        rep = dict(func='downsample', values=list(values), container=kind, labels=labels, maxseqs=maxseqs, numpy_seed=seed,
-                   impl=[str(x) for x in okeys])
+        values, kind, labels, maxseqs, seed, mtype = cases[k]
+        rep = dict(replay_of(k), impl=[str(x) for x in okeys[:50]])
         ok, draw = out1[pos], out1[pos + 1]
         if regime == 'reduced':
-            ctx.case(sample=dict(rep, spec_ok=ok) if nontriv and k % 53 == 0 and len(ctx.samples) < 3 else None,
+            ctx.case(sample=dict(rep, spec_ok=ok) if nontriv and k % 53 == 0 and len(ctx.samples) < 3 and len(values) < 40 else None,
                      nontrivial_key=('ds', kind, tuple(xs), maxseqs, tuple(oc)) if nontriv else None)
         if ok is not True:
             what = ('is not the input unchanged' if regime != 'reduced' else
-                    'is not exactly maxseqs elements forming a sub-multiset%s of the input' % (' (subset of rows)' if kind == 'dataframe' else ''))
+                    'is not exactly maxseqs elements forming a sub-multiset%s of the input' % (' (subset of rows)' if _is_table(kind) else ''))
             ctx.violation('property', 'downsample(%s %s, maxseqs=%s) returned %s, which %s'
-                          % (kind, [str(v) for v in values], maxseqs, [str(x) for x in okeys], what), rep, site='distance.downsample')
+                          % (kind, _brief([str(v) for v in values]), maxseqs, _brief([str(x) for x in okeys]), what), rep, site='distance.downsample')
             continue
-        if k % 5 == 0 and len(ctx.vm_cases) < 50:
+        if k % 5 == 0 and len(ctx.vm_cases) < 50 and len(xs) < 100:
             ctx.add_vm('api_c17_downsample_ok', [xs, maxseqs, oc], ok)
         if regime == 'reduced':
             if draw is None:
-                ctx.violation('correspondence', 'no draw reproduces the accepted output %s' % oc, rep, site='distance.downsample')
+                ctx.violation('correspondence', 'no draw reproduces the accepted output %s' % _brief(oc), rep, site='distance.downsample')
                 continue
             slots2.append((k, xs, oc, draw, len(req2)))
             req2 += [('api_c17_valid_draw', [len(xs), maxseqs, draw]), ('api_c17_downsample', [xs, maxseqs, draw])]
@@ -269,12 +544,43 @@ def check_downsample(ctx, cases):
             req2 += [('api_c17_valid_draw', [0, 0, []]), ('api_c17_downsample', [xs, maxseqs, []])]
     out2 = ctx.oracle.run_parallel(req2)
     for k, xs, oc, draw, pos in slots2:
-        values, kind, labels, maxseqs, seed = cases[k]
+        values, kind, labels, maxseqs, seed, mtype = cases[k]
         valid, model = out2[pos], out2[pos + 1]
         if valid is not True or model != oc:
-            ctx.violation('correspondence', 'downsample model under the recovered draw %s gives %s, implementation %s' % (draw, model, oc),
-                          dict(func='downsample', values=list(values), container=kind, labels=labels, maxseqs=maxseqs, numpy_seed=seed),
-                          site='distance.downsample')
+            ctx.violation('correspondence', 'downsample model under the recovered draw %s gives %s, implementation %s'
+                          % (_brief(draw), _brief(model), _brief(oc)), replay_of(k), site='distance.downsample')
+
+
+def check_downsample_sequences(ctx, seqs):
+    """seqs: list of (kind, labels, [(values, maxseqs, numpy seed), ...]): ONE object receives all the calls; a step whose values
+    differ from the step before means the caller overwrote the object in place (list / ndarray / Series / table column)."""
+    cases, shared = [], {}
+    for kind, labels, steps in seqs:
+        steps = [(list(v), m, sd) for v, m, sd in steps]
+        rep = dict(func='downsample_sequence', container=kind, labels=labels, steps=[[v, m, sd] for v, m, sd in steps])
+        box = {}
+
+        def provider(j, steps=steps, kind=kind, labels=labels, box=box):
+            values = steps[j][0]
+            if j == 0:
+                box['obj'], box['keys'] = _ds_build(values, kind, labels)
+            elif values != steps[j - 1][0]:
+                ctx.count('downsample:sequence:call after the object was refilled in place')
+                if _is_table(kind):
+                    fresh, box['keys'] = _ds_build(values, kind, labels)
+                    for c in range(fresh.shape[1]):
+                        box['obj'].iloc[:, c] = fresh.iloc[:, c].tolist()
+                else:
+                    _refill(box['obj'], values)
+                    box['keys'] = list(box['obj'].tolist() if hasattr(box['obj'], 'tolist') else box['obj'])   # what it holds now
+            else:
+                ctx.count('downsample:sequence:repeated call on the same object')
+            return box['obj'], box['keys']
+
+        for j, (values, m, seed) in enumerate(steps):
+            shared[len(cases)] = ((lambda j=j, provider=provider: provider(j)), dict(rep, step=j))
+            cases.append((values, kind, labels, m, seed))
+    check_downsample(ctx, cases, shared=shared)
 
 
 # ------------------------------------------------------------------ uniformity (a statistical TEST)
@@ -338,92 +644,237 @@ def uniformity_tests(ctx):
                 obs[seqs.index(str(s))] += 1
         pearson(obs, [TT * float(p)] * K, (K - 1) / (K - n), K - 1, 'downsample(8 distinct %s elements, 3): per-position inclusion' % kind,
                 dict(func='uniform_downsample', container=kind, n=n, numpy_seed=seed2), T=TT)
+    # (4) the same for the other containers of downsample (each handed to numpy.random.choice as is)
+    for kind in ('ndarray', 'series', 'tuple', 'index'):
+        obj, keys = _ds_build(seqs, kind, list(range(K))[::-1] if kind == 'series' else None)
+        seed2 = _seed(ctx)
+        np.random.seed(seed2)
+        obs = [0] * K
+        TT = max(T // 3, 500)
+        for _ in range(TT):
+            for s in downsample(obj, n).tolist():
+                obs[seqs.index(str(s))] += 1
+        pearson(obs, [TT * float(p)] * K, (K - 1) / (K - n), K - 1, 'downsample(8 distinct %s elements, 3): per-position inclusion' % kind,
+                dict(func='uniform_downsample', container=kind, n=n, numpy_seed=seed2), T=TT)
+    # (5) larger sizes (a draw that is uniform only below some size would pass (1)-(4)); the expected inclusion frequency n/N is
+    #     C17_uniform_item, proved for every N and n (the enumeration behind api_c17_inclusion is for small N only)
+    K2, n3 = 300, 100
+    TT = T // 2
+    seed3 = _seed(ctx)
+    np.random.seed(seed3)
+    obs = [0] * K2
+    for _ in range(TT):
+        u, c = subsample([1] * K2, n3)
+        for i in u.tolist():
+            obs[int(i)] += 1
+    pearson(obs, [TT * n3 / K2] * K2, (K2 - 1) / (K2 - n3), K2 - 1, 'subsample([1]*300, 100): per-item inclusion',
+            dict(func='uniform_subsample_items', counts='[1]*300', n=n3, numpy_seed=seed3), T=TT)
+    counts3, n4 = [400, 100, 300, 200], 250
+    N3 = sum(counts3)
+    seed4 = _seed(ctx)
+    np.random.seed(seed4)
+    obs = [0] * len(counts3)
+    for _ in range(TT):
+        u, c = subsample(np.array(counts3), n4)
+        for i, x in zip(u.tolist(), c.tolist()):
+            obs[int(i)] += int(x)
+    pearson(obs, [TT * n4 * ci / N3 for ci in counts3], (N3 - 1) / (N3 - n4), len(counts3) - 1,
+            'subsample([400,100,300,200], 250): category totals', dict(func='uniform_subsample_cats', counts=counts3, n=n4, numpy_seed=seed4), T=TT)
+    N5, n5 = 1500, 500
+    big = ['CAS%sF' % ''.join(AA[(i // 20 ** j) % 20] for j in range(3)) for i in range(N5)]
+    where = {x: i for i, x in enumerate(big)}
+    TT = max(T // 10, 200)
+    seed5 = _seed(ctx)
+    np.random.seed(seed5)
+    obs = [0] * N5
+    arr = np.array(big)
+    for _ in range(TT):
+        for x in downsample(arr, n5).tolist():
+            obs[where[x]] += 1
+    pearson(obs, [TT * n5 / N5] * N5, (N5 - 1) / (N5 - n5), N5 - 1, 'downsample(1500 distinct ndarray elements, 500): per-position inclusion',
+            dict(func='uniform_downsample', container='ndarray', n=n5, numpy_seed=seed5), T=TT)
+    # (6) the functions share NumPy's global generator: draws of subsample interleaved with calls of the other three functions
+    #     (a function that re-seeds or rewinds the shared generator makes the neighbouring draws repeat)
+    from pyrepseq.stats import powerlaw_sample, powerlaw_mle_alpha
+    seed6 = _seed(ctx)
+    np.random.seed(seed6)
+    obs = [0] * K
+    cc = [1, 1, 2, 3, 7, 1, 4]
+    for t in range(T):
+        powerlaw_sample(2, 1, 2.5)
+        u, c = subsample([1] * K, n)
+        for i in u.tolist():
+            obs[int(i)] += 1
+        downsample(seqs, 2)
+        powerlaw_mle_alpha(cc, 1, 'simple')
+        if t % 50 == 0:
+            powerlaw_mle_alpha(cc, 1, 'exact')
+    pearson(obs, [T * float(p)] * K, (K - 1) / (K - n), K - 1, 'subsample([1]*8, 3) interleaved with powerlaw_sample / downsample / '
+            'powerlaw_mle_alpha: per-item inclusion', dict(func='uniform_interleaved', counts=[1] * K, n=n, numpy_seed=seed6))
     ctx.extra['uniformity_tests'] = results
     ctx.extra['uniformity_note'] = ('statistical TEST, not a theorem: chi-square with false-alarm probability %g per statistic; '
                                     'expected frequencies from the model (api_c17_inclusion = n/N by C17_uniform_item)' % FALSE_ALARM)
 
 
 # ------------------------------------------------------------------ powerlaw_sample
+PL_DOC = dict(size=1, xmin=1.0, alpha=2.0)      # the documented signature powerlaw_sample(size=1, xmin=1.0, alpha=2.0)
+PL_NAMES = ['size', 'xmin', 'alpha']
+
+
+def _pl_args(size, xmin, alpha, form, types):
+    """form 'pos<k>[+kw:name,name]': the first k parameters positionally, the named ones by keyword, the rest left to their
+    documented defaults. Returns (args, kwargs, effective parameters)."""
+    vals = dict(size=size, xmin=xmin, alpha=alpha)
+    if types:
+        vals = {nm: _typed(vals[nm], t) for nm, t in zip(PL_NAMES, types)}
+    pos, _, kw = form.partition('+')
+    npos = int(pos[3:])
+    args = [vals[nm] for nm in PL_NAMES[:npos]]
+    kwargs = {nm: vals[nm] for nm in kw[3:].split(',') if nm} if kw else {}
+    eff = dict(PL_DOC)
+    eff.update({nm: vals[nm] for nm in PL_NAMES[:npos]})
+    eff.update(kwargs)
+    return args, kwargs, eff
+
+
 def check_powerlaw_sample(ctx, cases):
-    """cases: (size, xmin, alpha, seed)"""
+    """cases: (size, xmin, alpha, seed[, call form, scalar types])"""
     from pyrepseq.stats import powerlaw_sample
+    cases = [tuple(c) + ('pos3', None)[len(c) - 4:] for c in cases]
     req, slots = [], []
-    for k, (size, xmin, alpha, seed) in enumerate(cases):
+    effs = []
+    for k, (size, xmin, alpha, seed, form, types) in enumerate(cases):
+        args, kwargs, eff = _pl_args(size, xmin, alpha, form, types)
+        effs.append(eff)
+        size, xmin, alpha = eff['size'], eff['xmin'], eff['alpha']       # what the call requests (documented defaults where omitted)
         np.random.seed(seed)
-        r = call_impl(powerlaw_sample, size, xmin, alpha)
-        rep = dict(func='powerlaw_sample', size=size, xmin=xmin, alpha=alpha, numpy_seed=seed)
+        r = call_impl(powerlaw_sample, *args, **kwargs)
+        rep = dict(func='powerlaw_sample', size=cases[k][0], xmin=cases[k][1], alpha=cases[k][2], numpy_seed=seed, form=form,
+                   types=list(types) if types else None)
         ctx.count('powerlaw_sample:size=%s' % ('0' if int(size) == 0 else '1' if int(size) == 1 else '<=100' if size <= 100 else '<=1e4' if size <= 10 ** 4 else '>1e4'))
-        ctx.count('powerlaw_sample:alpha%s' % ('<1.5' if alpha < 1.5 else '<3' if alpha < 3 else '>=3'))
+        ctx.count('powerlaw_sample:alpha%s' % ('<1.5' if alpha < 1.5 else '<3' if alpha < 3 else '<6' if alpha < 6 else '>=6'))
+        if form != 'pos3':
+            ctx.count('powerlaw_sample:call form %s' % form)
+        if types:
+            ctx.count('powerlaw_sample:scalar types %s' % '/'.join(types))
+        if xmin > 50:
+            ctx.count('powerlaw_sample:xmin %s' % ('<=1e6' if xmin <= 10 ** 6 else '>1e6'))
+        call = 'powerlaw_sample(%s)' % ', '.join([repr(a) for a in args] + ['%s=%r' % kv for kv in kwargs.items()])
         if r[0] == 'exc':
             ctx.case()
-            ctx.violation('property', 'powerlaw_sample(size=%s, xmin=%s, alpha=%s) raised %s' % (size, xmin, alpha, r[1]), rep,
-                          site='stats.powerlaw_sample')
+            ctx.violation('property', '%s raised %s' % (call, r[1]), rep, site='stats.powerlaw_sample')
             continue
         try:
             vals = np.asarray(r[1], dtype=float).ravel().tolist()
         except Exception:
             ctx.case()
-            ctx.violation('property', 'powerlaw_sample returned %s' % _brief(r[1]), rep, site='stats.powerlaw_sample')
+            ctx.violation('property', '%s returned %s' % (call, _brief(r[1])), rep, site='stats.powerlaw_sample')
             continue
         if not all(math.isfinite(v) for v in vals):
             ctx.case()
-            ctx.violation('property', 'powerlaw_sample(size=%s, xmin=%s, alpha=%s) returned a non-finite value' % (size, xmin, alpha),
-                          rep, site='stats.powerlaw_sample')
+            ctx.violation('property', '%s returned a non-finite value' % call, rep, site='stats.powerlaw_sample')
             continue
         fr = [Fraction(v) for v in vals]
-        slots.append((k, vals, fr, len(req)))
-        req.append(('api_c17_powerlaw_ok', [int(size), Fraction(xmin), fr]))
+        slots.append((k, vals, fr, len(req), call))
+        req.append(('api_c17_powerlaw_ok', [int(size), Fraction(float(xmin)), fr]))
     outs = ctx.oracle.run_parallel(req)
-    for k, vals, fr, pos in slots:
-        size, xmin, alpha, seed = cases[k]
+    for k, vals, fr, pos, call in slots:
+        seed, form, types = cases[k][3:]
+        size, xmin, alpha = effs[k]['size'], effs[k]['xmin'], effs[k]['alpha']
         ok = outs[pos]
-        rep = dict(func='powerlaw_sample', size=size, xmin=xmin, alpha=alpha, numpy_seed=seed)
+        rep = dict(func='powerlaw_sample', size=cases[k][0], xmin=cases[k][1], alpha=cases[k][2], numpy_seed=seed, form=form,
+                   types=list(types) if types else None)
         nontriv = int(size) >= 1 and any(v > xmin for v in vals)
         ctx.case(sample=dict(rep, first_values=vals[:6], spec_ok=ok) if nontriv and k % 13 == 0 and len(ctx.samples) < 4 else None,
-                 nontrivial_key=('pl', int(size), xmin, alpha, seed) if nontriv else None)
+                 nontrivial_key=('pl', int(size), float(xmin), float(alpha), seed) if nontriv else None)
         if ok is not True:
             bad = [v for v in vals if v < xmin or v != math.floor(v)][:3]
             why = ('%d values returned, %d requested' % (len(vals), int(size)) if len(vals) != int(size)
-                   else 'values %s are not integer-valued numbers >= xmin' % bad)
-            ctx.violation('property', 'powerlaw_sample(size=%s, xmin=%s, alpha=%s) with numpy seed %d: %s' % (size, xmin, alpha, seed, why),
+                   else 'values %s are not integer-valued numbers >= xmin = %s' % (bad, xmin))
+            ctx.violation('property', '%s with numpy seed %d: %s' % (call, seed, why),
                           dict(rep, bad_values=bad, returned=len(vals)), site='stats.powerlaw_sample')
         elif len(fr) <= 6 and len(ctx.vm_cases) < 58:
-            ctx.add_vm('api_c17_powerlaw_ok', [int(size), Fraction(xmin), fr], ok)
+            ctx.add_vm('api_c17_powerlaw_ok', [int(size), Fraction(float(xmin)), fr], ok)
 
 
 # ------------------------------------------------------------------ powerlaw_mle_alpha: closed forms
 METHODS = {'simple': 0, 'continuitycorrection': 1}
 
 
-def check_mle_closed(ctx, cases):
-    """cases: (counts, cmin, method, container)"""
+MLE_DOC_CMIN = 1.0          # documented signature powerlaw_mle_alpha(c, cmin=1.0, method="exact", **kwargs)
+
+
+def _isnan(x):
+    return isinstance(x, float) and x != x
+
+
+def _mle_call_args(cmin, method, form):
+    """form: 'pos' (c, cmin, method), 'kw' (cmin=, method=), 'kw_swapped' (method=, cmin=), 'default_cmin' (cmin left to its documented
+    default 1.0), 'np_cmin' (cmin as a NumPy scalar), 'stray_kwargs' (optimiser options given although a closed form is asked)"""
+    if form == 'pos':
+        return [cmin, method], {}
+    if form == 'kw':
+        return [], dict(cmin=cmin, method=method)
+    if form == 'kw_swapped':
+        return [], dict(method=method, cmin=cmin)
+    if form == 'default_cmin':
+        return [], dict(method=method)
+    if form == 'np_cmin':
+        return [np.float64(cmin) if isinstance(cmin, float) else np.int64(cmin), method], {}
+    if form == 'stray_kwargs':
+        return [cmin, method], dict(bounds=[2.0, 3.0], options=dict(xatol=1e-3))
+    raise ValueError(form)
+
+
+def check_mle_closed(ctx, cases, shared=None):
+    """cases: (counts, cmin, method, container[, call form]). Counts may be floats; a NaN entry (an absent clonotype of a merged
+    table) is not >= cmin and therefore outside the fitted counts.
+    shared: {case number: (function returning the caller's object at that moment, replay)} for call sequences on one object."""
     from pyrepseq.stats import powerlaw_mle_alpha
-    req = [('api_c17_mle_lnargs', [METHODS[m], [Fraction(x) for x in c], Fraction(cmin)]) for c, cmin, m, kind in cases]
+    cases = [tuple(c) + ('pos',) * (5 - len(c)) for c in cases]
+    shared = shared or {}
+    eff_cmin = [MLE_DOC_CMIN if form == 'default_cmin' else cmin for c, cmin, m, kind, form in cases]
+    req = [('api_c17_mle_lnargs', [METHODS[m], [Fraction(x) for x in c if not _isnan(x)], Fraction(ec)])
+           for (c, cmin, m, kind, form), ec in zip(cases, eff_cmin)]
     args = ctx.oracle.run_parallel(req)
     lncache = {}
     req2 = []
-    for (c, cmin, m, kind), a in zip(cases, args):
+    for (c, cmin, m, kind, form), ec, a in zip(cases, eff_cmin, args):
         tbl = []
         for q in sorted(set(a)):
             if q not in lncache:
                 lncache[q] = _ln_fraction(q) if q > 0 else Fraction(0)
             tbl.append((q, lncache[q]))
-        req2.append(('api_c17_mle', [METHODS[m], tbl, [Fraction(x) for x in c], Fraction(cmin)]))
+        req2.append(('api_c17_mle', [METHODS[m], tbl, [Fraction(x) for x in c if not _isnan(x)], Fraction(ec)]))
     outs = ctx.oracle.run_parallel(req2)
-    for k, ((c, cmin, m, kind), a, o) in enumerate(zip(cases, args, outs)):
+    for k, ((c, cmin, m, kind, form), a, o) in enumerate(zip(cases, args, outs)):
         gen_defined, complete, gen, doc = o
         # the documented quotient exists iff the documented sum of logarithms is not 0 (table values are exact rationals)
         defined = sum((lncache[q] for q in a), Fraction(0)) != 0
-        arg = _container(c, kind)
-        r = call_impl(powerlaw_mle_alpha, arg, cmin, m)
-        rep = dict(func='powerlaw_mle_alpha', counts=list(c), cmin=cmin, method=m, container=kind)
+        arg = shared[k][0]() if k in shared else _container(c, kind)
+        before = _content(arg)
+        pos, kw = _mle_call_args(cmin, m, form)
+        r = call_impl(powerlaw_mle_alpha, arg, *pos, **kw)
+        rep = dict(shared[k][1]) if k in shared else dict(func='powerlaw_mle_alpha', counts=list(c), cmin=cmin, method=m, container=kind, form=form)
         ctx.count('mle:%s' % m)
         ctx.count('mle:%s' % ('defined' if defined else 'degenerate(sum ln = 0)'))
+        ctx.count('mle:container=%s' % kind)
+        if form != 'pos':
+            ctx.count('mle:call form %s' % form)
+        if any(_isnan(x) for x in c):
+            ctx.count('mle:counts_with_NaN')
+        if any(isinstance(x, float) and x != math.floor(x) for x in c if not _isnan(x)):
+            ctx.count('mle:non-integer values')
+        if any(x > 10 ** 6 for x in c if not _isnan(x)):
+            ctx.count('mle:a count > 1e6')
         nontriv = defined and len(set(a)) >= 2
         ctx.case(sample=dict(rep, impl=str(r), documented=float(doc)) if nontriv and k % 41 == 0 and len(ctx.samples) < 5 else None,
-                 nontrivial_key=('mle', m, tuple(c), cmin) if nontriv else None)
+                 nontrivial_key=('mle', m, tuple(repr(x) for x in c), cmin, form) if nontriv else None)
         if len(ctx.violations) > 20:
             break
+        if _content(arg) != before:
+            ctx.violation('correspondence', 'powerlaw_mle_alpha(%s, %s, %r) altered the caller\'s %s: now %s - the model is a pure function'
+                          % (_brief(list(c)), cmin, m, kind, _brief(_content(arg))), rep, site='stats.powerlaw_mle_alpha')
         if not defined:
             # every kept count equals cmin ('simple') or no count is >= cmin: the closed form has no value;
             # the implementation answers inf / nan there - a finite answer is reported as a model/implementation difference
@@ -432,15 +883,48 @@ def check_mle_closed(ctx, cases):
                               % (list(c), cmin, m, r[1]), rep, site='stats.powerlaw_mle_alpha')
             continue
         if r[0] != 'ok' or not close(float(r[1]), doc):
-            form = '1 + n/sum ln(c/cmin)' if m == 'simple' else '1 + n/sum ln(c/(cmin - 1/2))'
-            ctx.violation('property', 'powerlaw_mle_alpha(%s as %s, cmin=%s, method=%r) = %s but the documented closed form %s over the '
-                          'counts >= cmin gives %.12g' % (list(c), kind, cmin, m, r[1], form, float(doc)),
+            formula = '1 + n/sum ln(c/cmin)' if m == 'simple' else '1 + n/sum ln(c/(cmin - 1/2))'
+            ctx.violation('property', 'powerlaw_mle_alpha(%s as %s, %s) = %s but the documented closed form %s over the counts >= cmin = %s gives %.12g'
+                          % (_brief(list(c)), kind, ', '.join([repr(x) for x in pos] + ['%s=%r' % kv for kv in kw.items()]), r[1], formula,
+                             eff_cmin[k], float(doc)),
                           dict(rep, impl=str(r), expected=float(doc)), site='stats.powerlaw_mle_alpha')
             continue
         if not complete or not gen_defined or not close(float(r[1]), gen):
             ctx.violation('correspondence', 'the model generated from the source disagrees with the implementation on %s cmin=%s %s: '
-                          '%.12g vs %s (ln arguments all on the documented table: %s)' % (list(c), cmin, m, float(gen), r[1], complete),
+                          '%.12g vs %s (ln arguments all on the documented table: %s)' % (_brief(list(c)), cmin, m, float(gen), r[1], complete),
                           rep, site='stats.powerlaw_mle_alpha')
+
+
+def check_mle_sequences(ctx, seqs):
+    """seqs: list of (container kind, [(counts, cmin, method or ('exact', bounds)), ...]): ONE object receives all the calls; a step
+    whose counts differ from what the object holds means the caller overwrote it in place (a preallocated count buffer reused across
+    samples). Closed-form steps run first, then the 'exact' steps (each judged on what the object holds at its call)."""
+    closed, exact, sh_closed, sh_exact = [], [], {}, {}
+    for kind, steps in seqs:
+        steps = [(list(c), cmin, m) for c, cmin, m in steps]
+        rep = dict(func='mle_sequence', container=kind, steps=[[c, cmin, m] for c, cmin, m in steps])
+        box = {}
+
+        def provider(j, steps=steps, kind=kind, box=box):
+            if 'obj' not in box:
+                box['obj'] = _container(steps[j][0], kind)
+            elif _content(box['obj']) != _content(_container(steps[j][0], kind)):
+                _refill(box['obj'], steps[j][0])
+                ctx.count('mle:sequence:call after the object was refilled in place')
+            else:
+                ctx.count('mle:sequence:repeated call on the same object')
+            return box['obj']
+
+        for j, (c, cmin, m) in enumerate(steps):
+            entry = ((lambda j=j, provider=provider: provider(j)), dict(rep, step=j))
+            if isinstance(m, str):
+                sh_closed[len(closed)] = entry
+                closed.append((c, cmin, m, kind))
+            else:
+                sh_exact[len(exact)] = entry
+                exact.append((c, cmin, tuple(m[1]) if m[1] is not None else None, dict(kind=kind)))
+    check_mle_closed(ctx, closed, shared=sh_closed)
+    check_mle_exact(ctx, exact, shared=sh_exact)
 
 
 # ------------------------------------------------------------------ powerlaw_mle_alpha: 'exact'
@@ -479,42 +963,80 @@ def _discrete_powerlaw(rng, n, alpha, cmin):
     return [min(v, 10 ** 9) for v in out]
 
 
-def check_mle_exact(ctx, cases):
-    """cases: (counts, cmin, bounds or None)"""
+def _exact_call_args(cmin, bounds, opts):
+    """opts: kind (container of the counts), form ('pos': c, cmin, 'exact'; 'kw': cmin=, method=; 'defaults': c alone - the documented
+    defaults cmin=1.0, method='exact'; 'default_method': c, cmin; 'default_cmin': c, method='exact'), bounds_as (list / tuple / ndarray),
+    extra (further keyword arguments handed through to scipy.optimize.minimize_scalar)"""
+    form = opts.get('form', 'pos')
+    pos, kw = {'pos': ([cmin, 'exact'], {}), 'kw': ([], dict(cmin=cmin, method='exact')), 'defaults': ([], {}),
+               'default_method': ([cmin], {}), 'default_cmin': ([], dict(method='exact')),
+               'np_cmin': ([np.float64(cmin) if isinstance(cmin, float) else np.int64(cmin), 'exact'], {})}[form]
+    kw = dict(kw)
+    if bounds is not None:
+        b = opts.get('bounds_as', 'list')
+        kw['bounds'] = list(bounds) if b == 'list' else tuple(bounds) if b == 'tuple' else np.array(bounds, dtype=float)
+    for name, v in (opts.get('extra') or {}).items():
+        kw[name] = dict(v) if isinstance(v, dict) else v
+    return pos, kw
+
+
+def check_mle_exact(ctx, cases, shared=None):
+    """cases: (counts, cmin, bounds or None[, options of the call: see _exact_call_args])"""
     from pyrepseq.stats import powerlaw_mle_alpha
     import scipy.special
+    cases = [tuple(c) + ({},) * (4 - len(c)) for c in cases]
+    shared = shared or {}
     G = 400 if ctx.quick else 2000
     TOL = Fraction(1, 10 ** 6)
     req, slots = [], []
     worst = 0.0
-    for k, (c, cmin, bounds) in enumerate(cases):
-        kw = dict(bounds=list(bounds)) if bounds is not None else {}
+    npts = 0
+    for k, (c, cmin, bounds, opts) in enumerate(cases):
+        opts = dict(opts or {})
+        kind, form = opts.get('kind', 'ndarray'), opts.get('form', 'pos')
+        pos, kw = _exact_call_args(cmin, bounds, opts)
         lo, hi = bounds if bounds is not None else (1.5, 4.5)
-        r = call_impl(powerlaw_mle_alpha, np.array(c), cmin, 'exact', **kw)
-        rep = dict(func='powerlaw_mle_alpha', method='exact', counts=list(c), cmin=cmin, bounds=[lo, hi], default_bounds=bounds is None)
+        ecmin = MLE_DOC_CMIN if form in ('defaults', 'default_cmin') else cmin
+        arg = shared[k][0]() if k in shared else _container(c, kind)
+        before = _content(arg)
+        r = call_impl(powerlaw_mle_alpha, arg, *pos, **kw)
+        rep = dict(shared[k][1]) if k in shared else dict(func='powerlaw_mle_alpha', method='exact', counts=list(c), cmin=cmin, bounds=[lo, hi],
+                                                          default_bounds=bounds is None, options=opts)
         ctx.count('mle:exact:%s' % ('default bounds' if bounds is None else 'custom bounds'))
+        ctx.count('mle:exact:container=%s' % kind)
+        if form != 'pos':
+            ctx.count('mle:exact:call form %s' % form)
+        if bounds is not None and opts.get('bounds_as', 'list') != 'list':
+            ctx.count('mle:exact:bounds as %s' % opts['bounds_as'])
+        for name in (opts.get('extra') or {}):
+            ctx.count('mle:exact:kwargs pass-through %s' % name)
+        ctx.count('mle:exact:n %s' % ('<= 5' if len(c) <= 5 else '<= 1000' if len(c) <= 1000 else '> 1000'))
+        call = 'powerlaw_mle_alpha(%d counts as %s, %s)' % (len(c), kind, ', '.join([repr(x) for x in pos] + ['%s=%r' % kv for kv in kw.items()]))
+        if _content(arg) != before:
+            ctx.violation('correspondence', '%s altered the caller\'s counts: now %s' % (call, _brief(_content(arg))), rep,
+                          site='stats.powerlaw_mle_alpha[exact]')
         if r[0] != 'ok' or not math.isfinite(float(r[1])):
             ctx.case()
-            ctx.violation('property', "powerlaw_mle_alpha(%d counts, cmin=%s, 'exact', bounds=%s) -> %s" % (len(c), cmin, [lo, hi], r),
-                          rep, site='stats.powerlaw_mle_alpha[exact]')
+            ctx.violation('property', "%s -> %s" % (call, r), rep, site='stats.powerlaw_mle_alpha[exact]')
             continue
         a = float(r[1])
         grid = np.linspace(lo, hi, G)
-        ll = _loglik(c, grid, cmin)
-        ll_a = float(_loglik(c, np.array([min(max(a, lo), hi)]), cmin)[0]) if lo <= a <= hi else float('-inf')
-        if k < 6:
+        ll = _loglik(c, grid, ecmin)
+        ll_a = float(_loglik(c, np.array([min(max(a, lo), hi)]), ecmin)[0]) if lo <= a <= hi else float('-inf')
+        if npts < 12:
             for al in (float(grid[G // 3]), a if lo <= a <= hi else lo):
-                zs, zd = float(scipy.special.zeta(al, cmin)), _hurwitz_decimal(al, cmin)
+                zs, zd = float(scipy.special.zeta(al, ecmin)), _hurwitz_decimal(al, ecmin)
                 worst = max(worst, abs(zs / float(zd) - 1))
+                npts += 1
         j = int(np.argmax(ll))
         boundary = j in (0, G - 1)
         ctx.count('mle:exact:%s' % ('optimum at a bound' if boundary else 'interior optimum'))
         if not (lo <= a <= hi):
             ctx.case()
-            ctx.violation('property', "powerlaw_mle_alpha(..., 'exact', bounds=%s) returned %r outside its bounds" % ([lo, hi], a),
+            ctx.violation('property', "%s returned %r outside its bounds %s" % (call, a, [lo, hi]),
                           dict(rep, impl=a), site='stats.powerlaw_mle_alpha[exact]')
             continue
-        slots.append((k, a, boundary, len(req), ll_a, float(ll[j]), float(grid[j])))
+        slots.append((k, a, boundary, len(req), ll_a, float(ll[j]), float(grid[j]), call, rep))
         req.append(('api_c17_exact_ok', [Fraction(lo), Fraction(hi), Fraction(a), Fraction(ll_a), TOL, [Fraction(float(v)) for v in ll]]))
         # concave likelihood whose maximum over the bounds sits at an end point e: the bounded minimiser stops within its
         # x-tolerance of e, so the position is judged instead (|a - e| <= 1e-4) when the likelihood criterion fails
@@ -522,20 +1044,20 @@ def check_mle_exact(ctx, cases):
         req.append(('api_c17_exact_ok', [Fraction(lo), Fraction(hi), Fraction(a), -abs(Fraction(a) - Fraction(e)),
                                         Fraction(1, 10 ** 4), [Fraction(0)]]))
     outs = ctx.oracle.run_parallel(req)
-    for k, a, boundary, pos, ll_a, llmax, amax in slots:
-        c, cmin, bounds = cases[k]
+    for k, a, boundary, pos, ll_a, llmax, amax, call, rep in slots:
+        c, cmin, bounds, opts = cases[k]
         lo, hi = bounds if bounds is not None else (1.5, 4.5)
         ok = True if (outs[pos] is True or (boundary and outs[pos + 1] is True)) else False
-        rep = dict(func='powerlaw_mle_alpha', method='exact', counts=list(c), cmin=cmin, bounds=[lo, hi], default_bounds=bounds is None,
-                   impl=a, loglik_at_impl=ll_a, grid_max=llmax, grid_argmax=amax)
-        ctx.case(sample=dict(n=len(c), cmin=cmin, bounds=[lo, hi], impl=a, loglik_at_impl=ll_a, grid_max=llmax, grid_argmax=amax) if k % 9 == 0 else None,
-                 nontrivial_key=('exact', tuple(c), cmin, lo, hi) if not boundary else None)
+        rep = dict(rep, impl=a, loglik_at_impl=ll_a, grid_max=llmax, grid_argmax=amax)
+        ctx.case(sample=dict(n=len(c), cmin=cmin, bounds=[lo, hi], impl=a, loglik_at_impl=ll_a, grid_max=llmax, grid_argmax=amax) if k % 9 == 0 and len(ctx.samples) < 9 else None,
+                 nontrivial_key=('exact', tuple(repr(x) for x in c[:200]), len(c), cmin, lo, hi) if not boundary else None)
         if ok is not True:
-            ctx.violation('property', "powerlaw_mle_alpha(%d counts, cmin=%s, 'exact', bounds=%s) = %.9g is not a maximiser of the discrete "
-                          'power-law likelihood within the bounds: log-likelihood %.9g there, %.9g at alpha=%.6g'
-                          % (len(c), cmin, [lo, hi], a, ll_a, llmax, amax), rep, site='stats.powerlaw_mle_alpha[exact]')
-    ctx.extra['zeta_contract_crosscheck'] = ('scipy.special.zeta vs an independent 40-digit Euler-Maclaurin evaluation: '
-                                             'max relative difference %.2e on %d points' % (worst, min(len(cases), 6) * 2))
+            ctx.violation('property', "%s = %.9g is not a maximiser of the discrete "
+                          'power-law likelihood within the bounds %s: log-likelihood %.9g there, %.9g at alpha=%.6g'
+                          % (call, a, [lo, hi], ll_a, llmax, amax), rep, site='stats.powerlaw_mle_alpha[exact]')
+    if npts and 'zeta_contract_crosscheck' not in ctx.extra:
+        ctx.extra['zeta_contract_crosscheck'] = ('scipy.special.zeta vs an independent 40-digit Euler-Maclaurin evaluation: '
+                                                 'max relative difference %.2e on %d points' % (worst, npts))
     if worst > 1e-9:
         ctx.note('scipy.special.zeta deviates from the independent evaluation by %.2e (contract, not pyrepseq)' % worst)
 
@@ -670,6 +1192,259 @@ def gen_exact_cases(ctx):
     return cases
 
 
+# ------------------------------------------------------------------ generators of the widened domain (audit of the input coverage)
+def gen_subsample_wide(ctx):
+    """container kinds x type of n; sizes across 127/128, 255/256, 2**15, 2**16 (many categories, large counts)"""
+    rng = ctx.rng
+    R = 1 if ctx.quick else 8
+    cases = []
+    kinds = ['ndarray:%s' % d for d in INT_DTYPES] + ['series:shifted', 'series:permuted', 'series:string', 'series:duplicated',
+                                                      'series:Int64', 'list:npints']
+    ntypes = ['int', 'np.int64', 'np.int32', 'float', 'np.float64', 'np.uint8']
+    for kind in kinds:
+        for ntype in ntypes:
+            for _ in range(R):
+                counts = tuple(rng.choice([0, 0, 1, 2, 3, 7, 20]) for _ in range(rng.randint(1, 9)))
+                total = sum(counts)
+                for n in sorted({0, total, rng.randint(0, total), rng.randint(0, total), total + rng.randint(1, 3)}):
+                    cases.append((counts, n, _seed(ctx), kind, ntype))
+    for K in ([130, 260, 1000] if ctx.quick else [130, 260, 300, 1000, 2000, 3000]):
+        for _ in range(R):
+            counts = tuple(rng.choice([0, 1, 1, 2, 3]) for _ in range(K))
+            total = sum(counts)
+            for n in (total // 3, total - 1, total, total + 1):
+                cases.append((counts, n, _seed(ctx), rng.choice(['list', 'ndarray', 'series:shifted', 'ndarray:uint8', 'tuple']), rng.choice(ntypes[:5])))
+        counts = tuple([0] * (K - 3) + [2, 0, 3])        # only the last categories are occupied
+        for n in (1, 4, 5, 6):
+            cases.append((counts, n, _seed(ctx), rng.choice(['list', 'ndarray']), 'int'))
+    bigs = [[200, 0, 300], [127, 128, 129], [255, 256, 1], [0, 40000, 1, 70000], [0, 2 ** 17, 3], [2 ** 15, 2 ** 15], [10 ** 5]]
+    for counts in bigs if ctx.quick else bigs * 4:
+        total = sum(counts)
+        dts = [d for d in INT_DTYPES if _fits(counts, d)]
+        for n in (1, rng.randint(2, total - 2), total - 1, total, total + 1):
+            cases.append((tuple(counts), n, _seed(ctx), rng.choice(['list', 'ndarray:' + rng.choice(dts), 'series:string']), rng.choice(ntypes[:5])))
+    return cases
+
+
+def gen_subsample_sequences(ctx):
+    rng = ctx.rng
+    seqs = []
+    for _ in range(40 if ctx.quick else 400):
+        kind = rng.choice(['ndarray', 'ndarray:int32', 'ndarray:uint8', 'list', 'series', 'series:string', 'tuple'])
+        L = rng.randint(1, 8)
+        c1, c2 = ([rng.choice([0, 1, 2, 3, 5, 8]) for _ in range(L)] for _ in range(2))
+        t1, t2 = sum(c1), sum(c2)
+        steps = [(c1, rng.randint(0, t1), _seed(ctx)), (c1, rng.choice([0, t1, rng.randint(0, t1), t1 + 1]), _seed(ctx))]
+        if kind != 'tuple':
+            steps += [(c2, rng.choice([t2, rng.randint(0, t2), t2 + 1]), _seed(ctx)), (c1, t1, _seed(ctx))]
+        seqs.append((kind, steps))
+    return seqs
+
+
+DS_TABLES = ['dataframe:1col', 'dataframe:nan', 'dataframe:dupcols', 'dataframe:multiindex', 'dataframe:wide']
+LONGPOOL = ['CASSF', 'CASSLF', 'CAF', 'CASSQETQYF', 'CSARDF', 'C' + 'AS' * 70 + 'F', 'CAS' + 'G' * 300 + 'F', 'CASSLAPGATNEKLFF' + 'Q' * 12]
+
+
+def _ds_labels(rng, N):
+    return rng.choice([None, list(range(N))[::-1], [10 + 3 * i for i in range(N)], [i // 2 for i in range(N)], ['r%d' % (i % 3) for i in range(N)]])
+
+
+def gen_downsample_wide(ctx):
+    """further containers (object arrays, string / categorical Series, pd.Index, tables with one / many / equally named columns, missing
+    cells, a MultiIndex, no rows), maxseqs as a NumPy integer, sequences longer than 127 / 255, missing elements, sizes to 70000"""
+    rng = ctx.rng
+    R = 1 if ctx.quick else 8
+    cases = []
+    kinds = ['ndarray:object', 'series:str', 'series:string', 'series:category', 'index'] + DS_TABLES
+    mtypes = ['int', 'np.int64', 'np.int32', 'np.uint8']
+    for kind in kinds + ['list', 'ndarray', 'series', 'dataframe', 'tuple']:
+        for _ in range(8 * R):
+            N = rng.randint(1, 12)
+            values = [rng.choice(LONGPOOL) for _ in range(N)]
+            labels = _ds_labels(rng, N) if kind.startswith(('series', 'dataframe')) else None
+            m = rng.choice([0, 1, N - 1, N, N + 1, rng.randint(0, N), None])
+            cases.append((values, kind, labels, m, _seed(ctx), rng.choice(mtypes)))
+    for kind in DS_TABLES + ['dataframe']:          # a table without rows
+        for m in (0, 1, None):
+            cases.append(([], kind, None, m, _seed(ctx)))
+    for kind in ('list', 'tuple', 'series', 'ndarray:object', 'dataframe:1col'):      # missing elements
+        for _ in range(4 * R):
+            N = rng.randint(2, 10)
+            values = [rng.choice(LONGPOOL[:5] + [None, float('nan')]) for _ in range(N)]
+            values[rng.randrange(N)] = None
+            for m in (0, 1, N - 1, N, None):
+                cases.append((values, kind, None, m, _seed(ctx)))
+    base = [''.join(rng.choice(AA) for _ in range(rng.randint(3, 20))) for _ in range(400)]
+    for N in ([127, 128, 255, 256, 1000] if ctx.quick else [127, 128, 255, 256, 1000, 1000, 1500, 1500]):
+        values = [rng.choice(base) for _ in range(N)]
+        kind = rng.choice(['list', 'ndarray', 'series', 'dataframe', 'tuple', 'dataframe:nan', 'index'])
+        labels = _ds_labels(rng, N) if kind.startswith(('series', 'dataframe')) else None
+        for m in (0, 1, N // 2, N - 1, N, N + 1):
+            cases.append((values, kind, labels, m, _seed(ctx), rng.choice(mtypes[:3])))
+    for N in (2 ** 15 + 1, 70000):          # the extracted model handles these when few elements are kept (all sizes of maxseqs: check_huge)
+        values = [rng.choice(base) + rng.choice(base) for _ in range(N)]
+        for kind in (['list', 'dataframe:1col'] if ctx.quick else ['list', 'ndarray', 'series', 'dataframe:1col', 'dataframe']):
+            for m in (1, 7):
+                cases.append((values, kind, None, m, _seed(ctx), 'np.int64'))
+    return cases
+
+
+def gen_downsample_sequences(ctx):
+    rng = ctx.rng
+    seqs = []
+    for _ in range(40 if ctx.quick else 400):
+        kind = rng.choice(['list', 'ndarray', 'ndarray:object', 'series', 'series:str', 'dataframe', 'dataframe:1col', 'tuple'])
+        N = rng.randint(2, 10)
+        v1, v2 = ([rng.choice(LONGPOOL[:5]) for _ in range(N)] for _ in range(2))
+        labels = _ds_labels(rng, N) if kind.startswith(('series', 'dataframe')) else None
+        steps = [(v1, rng.randint(0, N - 1), _seed(ctx)), (v1, rng.choice([0, 1, N - 1, N, None]), _seed(ctx)), (v1, rng.randint(0, N - 1), _seed(ctx))]
+        if kind != 'tuple':
+            steps += [(v2, rng.randint(0, N - 1), _seed(ctx)), (v2, None, _seed(ctx)), (v1, N, _seed(ctx)), (v1, N - 1, _seed(ctx))]
+        seqs.append((kind, labels, steps))
+    return seqs
+
+
+def gen_powerlaw_wide(ctx):
+    """call forms (parameters left to their documented defaults, keywords), NumPy / int / float scalars, xmin up to 1e12, exponents
+    up to 200, sizes across 127/128, 255/256, 2**15, 2**16"""
+    rng = ctx.rng
+    R = 1 if ctx.quick else 8
+    cases = []
+    forms = ['pos0', 'pos1', 'pos2', 'pos0+kw:size', 'pos0+kw:xmin', 'pos0+kw:alpha', 'pos0+kw:size,xmin', 'pos0+kw:xmin,alpha',
+             'pos0+kw:alpha,size', 'pos0+kw:size,xmin,alpha', 'pos1+kw:alpha', 'pos1+kw:xmin', 'pos2+kw:alpha']
+    for form in forms:
+        for _ in range(4 * R):
+            cases.append((rng.choice([0, 1, 2, 5, 40, 300]), rng.choice([1, 2, 3, 10, 2.0, 37]), rng.choice([1.2, 1.5, 2.0, 3.5, 3, 5.5]), _seed(ctx), form))
+    typesets = [('np.int64', 'np.int64', 'np.float64'), ('np.int32', 'np.float64', 'np.float64'), ('float', 'float', 'int'),
+                ('np.uint8', 'np.uint8', 'np.int64'), ('int', 'np.int32', 'float'), ('np.float64', 'int', 'np.int32'), ('np.uint16', 'np.uint16', 'np.float64')]
+    for types in typesets:
+        for _ in range(4 * R):
+            alpha = rng.choice([2, 3, 4, 6]) if 'int' in types[2] else rng.choice([1.2, 1.7, 2.0, 2.5, 4.0])
+            cases.append((rng.choice([0, 1, 3, 50, 200]), rng.randint(1, 60), alpha, _seed(ctx), rng.choice(['pos3', 'pos0+kw:size,xmin,alpha', 'pos1+kw:xmin,alpha']), types))
+    for xmin in [51, 100, 1000, 10 ** 6, 2 ** 31, 2 ** 31 + 1, 10 ** 9, 10 ** 12]:
+        for _ in range(2 * R):
+            cases.append((rng.choice([1, 10, 500]), xmin, rng.choice([1.2, 1.5, 2.0, 3.0, 7.5]), _seed(ctx)))
+    for alpha in [6.0, 8.5, 20.0, 50.0, 200.0, 12]:
+        for _ in range(2 * R):
+            cases.append((rng.choice([1, 10, 500]), rng.choice([1, 2, 9, 50, 1000]), alpha, _seed(ctx)))
+    for size in [127, 128, 255, 256, 1000, 2 ** 15, 2 ** 16 + 1]:
+        cases.append((size, rng.randint(1, 50), round(rng.uniform(1.1, 4.0), 3), _seed(ctx), rng.choice(['pos3', 'pos0+kw:size,xmin,alpha'])))
+    return cases
+
+
+MLE_KINDS = (['ndarray:%s' % d for d in INT_DTYPES] +
+             ['ndarray:float64', 'series:shifted', 'series:permuted', 'series:string', 'series:duplicated', 'list:npints', 'tuple', 'list', 'series'])
+
+
+def gen_mle_wide(ctx):
+    """call forms (keywords, cmin left to its default, NumPy scalar, stray optimiser options), integer dtypes, index variants, NaN
+    entries, non-integer values, counts up to 1e15, thresholds up to 1000 (samples of 1e3 .. 1e5 counts: check_huge)"""
+    rng = ctx.rng
+    R = 1 if ctx.quick else 6
+    cases = []
+    forms = ['kw', 'kw_swapped', 'default_cmin', 'np_cmin', 'stray_kwargs', 'pos']
+    for kind in MLE_KINDS:
+        for form in forms:
+            for _ in range(R):
+                n = rng.randint(1, 40)
+                c = [min(v, 100) for v in _discrete_powerlaw(rng, n, rng.uniform(1.5, 4.0), 1)]
+                if rng.random() < 0.3:
+                    c += [0] * rng.randint(1, 3)
+                    rng.shuffle(c)
+                cmin = 1 if form == 'default_cmin' else rng.choice([1, 2, 3, 5, 1.0, 2.0, 1.5])
+                cases.append((c, cmin, rng.choice(list(METHODS)), kind, form))
+    for kind in ('ndarray:float64', 'list', 'series', 'series:string', 'tuple'):
+        for _ in range(4 * R):
+            n = rng.randint(2, 40)
+            cmin = rng.choice([1, 2, 2.5, 1.0, 10])
+            alpha = rng.uniform(1.5, 4.0)
+            if rng.random() < 0.5:       # NaN: the clonotype is absent from this sample of an outer-joined table
+                c = [float(v) for v in _discrete_powerlaw(rng, n, alpha, 1)] + [float('nan')] * rng.randint(1, 4)
+                rng.shuffle(c)
+            else:                        # continuous data (the 'simple' form is the exact continuous estimator)
+                c = [round(float(cmin) * (1 - rng.random()) ** (-1.0 / (alpha - 1.0)), 3) * rng.choice([1, 1, 1, 0.5]) for _ in range(n)]
+            cases.append((c, cmin, rng.choice(list(METHODS)), kind, rng.choice(forms[:2] + ['pos'])))
+    for _ in range(6 * R):
+        c = _discrete_powerlaw(rng, rng.randint(3, 30), 1.6, 1) + [10 ** 12, 2 ** 40 + 1, 10 ** 15, 3 * 10 ** 7][:rng.randint(1, 4)]
+        rng.shuffle(c)
+        cases.append((c, rng.choice([1, 5, 100, 10 ** 6]), rng.choice(list(METHODS)), rng.choice(['list', 'ndarray', 'ndarray:uint64', 'series:shifted'])))
+    for cmin in (50, 100, 1000, 127, 128, 255.0, 256):
+        for _ in range(R):
+            c = _discrete_powerlaw(rng, rng.randint(5, 60), rng.uniform(1.6, 3.0), rng.choice([cmin, cmin // 4 + 1]))
+            c = [min(int(v), 10 ** 9) for v in c]
+            cases.append((c, cmin, rng.choice(list(METHODS)), rng.choice(['list', 'ndarray', 'ndarray:int32', 'series:string']), rng.choice(forms)
+                          if cmin != 255.0 else 'pos'))
+    return cases
+
+
+def gen_exact_wide(ctx):
+    rng = ctx.rng
+    R = 1 if ctx.quick else 6
+    cases = []
+    kinds = ['list', 'tuple', 'ndarray:int16', 'ndarray:uint16', 'ndarray:int32', 'ndarray:uint64', 'ndarray:float64', 'series:shifted',
+             'series:string', 'series:permuted', 'list:npints']
+    if os.environ.get('PV_PENDING_C17'):
+        kinds += ['ndarray:int8', 'ndarray:uint8']       # NOTES.md, POSSIBLE DEFECT: float16 logarithms of 8-bit counts
+    forms = ['pos', 'kw', 'defaults', 'default_method', 'default_cmin', 'np_cmin']
+    extras = [None, None, {'options': {'xatol': 1e-9}}, {'tol': 1e-9}, {'options': {'maxiter': 400}}, {'options': {'xatol': 1e-7, 'maxiter': 300}}]
+    allb = [(1.2, 3.0), (2.0, 6.0), (1.5, 2.5), (1.1, 8.0), (3.0, 4.0), (1.5, 4.5)]
+    for kind in kinds:
+        for form in forms:
+            for _ in range(R):
+                cmin = 1 if form in ('defaults', 'default_cmin') else rng.choice([1, 2, 3, 5, 10, 2.0])
+                n = rng.choice([rng.randint(30, 400), rng.randint(30, 400), rng.randint(6, 29), 3000])
+                c = [min(v, 100 if kind in ('ndarray:int8', 'ndarray:uint8') else 30000) for v in _discrete_powerlaw(rng, n, rng.uniform(1.8, 4.0), cmin)]
+                if rng.random() < 0.3:
+                    c += [0] * rng.randint(1, 5) + [rng.randint(1, 3) for _ in range(rng.randint(0, 10))]
+                    rng.shuffle(c)
+                bounds = None if rng.random() < 0.5 else rng.choice(allb)
+                cases.append((c, cmin, bounds, dict(kind=kind, form=form, bounds_as=rng.choice(['list', 'tuple', 'ndarray']), extra=rng.choice(extras))))
+    for n in (1, 1, 2, 2, 3, 5):           # very small samples (the likelihood is monotone or flat: optimum at a bound)
+        for _ in range(R):
+            cmin = rng.choice([1, 1, 2])
+            c = [rng.choice([cmin, cmin, cmin + 1, 5, 40]) for _ in range(n)]
+            cases.append((c, cmin, rng.choice([None, (1.2, 3.0)]), dict(kind=rng.choice(['list', 'ndarray']))))
+        cases.append(([1] * n, 2, None, dict(kind='list')))          # no count reaches cmin: every exponent within the bounds is a maximiser
+    for alpha, cmin in [(1.25, 1), (1.3, 2), (6.0, 1), (7.0, 3)]:      # true exponent outside the default bounds
+        for _ in range(R):
+            c = _discrete_powerlaw(rng, rng.randint(100, 500), alpha, cmin)
+            cases.append((c, cmin, rng.choice([None, None, (1.1, 8.0)]), dict(kind='ndarray', form=rng.choice(['pos', 'default_method']))))
+    for _ in range(3 * R):                  # NaN entries (absent clonotypes)
+        cmin = rng.choice([1, 2])
+        c = [float(v) for v in _discrete_powerlaw(rng, rng.randint(40, 300), rng.uniform(1.8, 3.5), cmin)] + [float('nan')] * rng.randint(1, 5)
+        rng.shuffle(c)
+        cases.append((c, cmin, None, dict(kind=rng.choice(['ndarray:float64', 'list', 'series:string']))))
+    for _ in range(3 * R):                  # narrow custom bounds away from the optimum, then the defaults again on the same data
+        cmin = rng.choice([1, 2])
+        c = _discrete_powerlaw(rng, rng.randint(80, 400), rng.uniform(1.9, 2.6), cmin)
+        far = rng.choice([(3.4, 3.6), (4.0, 4.4), (1.55, 1.6)])
+        cases += [(c, cmin, far, dict(kind='ndarray', extra={'options': {'xatol': 1e-8}})), (c, cmin, None, dict(kind='ndarray')),
+                  (c, cmin, None, dict(kind='ndarray', form='default_method'))]
+    # large samples: the default x-tolerance 1e-5 of the bounded minimiser costs up to n * I * 1e-10 / 2 in log-likelihood, which
+    # reaches the 1e-6 of the criterion near n = 1e4; beyond 5000 counts the caller tightens it through the documented pass-through
+    for n, extra in ([(5000, None), (10 ** 5, {'options': {'xatol': 1e-8}})] if ctx.quick else
+                     [(5000, None)] * 3 + [(10 ** 5, {'options': {'xatol': 1e-8}})] * 3 + [(10 ** 6, {'options': {'xatol': 1e-9}})]):
+        cmin = rng.choice([1, 2])
+        cases.append((_discrete_powerlaw(rng, n, rng.uniform(1.8, 3.5), cmin), cmin, None, dict(kind='ndarray', extra=extra)))
+    return cases
+
+
+def gen_mle_sequences(ctx):
+    rng = ctx.rng
+    seqs = []
+    for _ in range(25 if ctx.quick else 250):
+        kind = rng.choice(['ndarray', 'ndarray:float64', 'ndarray:int32', 'list', 'series', 'series:string', 'tuple'])
+        L = rng.randint(8, 60)
+        c1, c2 = ([min(v, 1000) for v in _discrete_powerlaw(rng, L, rng.uniform(1.7, 3.5), 1)] for _ in range(2))
+        m1, m2 = rng.choice(list(METHODS)), rng.choice(list(METHODS))
+        cmin = rng.choice([1, 2, 1.5])
+        steps = [(c1, cmin, m1), (c1, cmin, m2), (c1, 1, ('exact', None)), (c1, cmin, m1)]
+        if kind != 'tuple':
+            steps += [(c2, cmin, m1), (c2, 1, ('exact', (1.2, 6.0))), (c1, rng.choice([1, 2]), m2), (c1, 1, ('exact', None))]
+        seqs.append((kind, steps))
+    return seqs
+
+
 # ------------------------------------------------------------------ entry points
 def run(ctx):
     ctx.rule = ('subsample: every count vector of length 0..4 with entries 0..4 x n in 0..total, total+1, total+3 (quick: a spread of n '
@@ -678,16 +1453,32 @@ def run(ctx):
                 'N <= 4/5, x list/ndarray/Series/DataFrame/tuple x maxseqs 0..N+2 and None, plus random collections; non-trivial := reduced, '
                 'maxseqs > 0, >= 2 distinct elements. powerlaw_sample: sizes 0..1e5, xmin 1..50, alpha in [1.06, 6); non-trivial := some value '
                 'above xmin. powerlaw_mle_alpha: every count vector over {1,2,3,5} of length <= 3/4 x cmin 1,2 x both closed forms, random '
-                'power-law samples; exact: bounds respected and log-likelihood >= grid maximum - 1e-6. NumPy seeded from ctx.rng per call.')
-    check_subsample(ctx, gen_subsample_cases(ctx), 'main')
+                'power-law samples; exact: bounds respected and log-likelihood >= grid maximum - 1e-6. NumPy seeded from ctx.rng per call. '
+                'Widened (coverage audit): integer dtypes int8..uint64, Series with shifted / permuted / string / duplicated index, nullable Int64, '
+                'lists of NumPy integers, n / maxseqs / size / xmin / alpha / cmin as NumPy or float scalars; > 255 categories, counts and totals '
+                'across 2**15 / 2**16, 66000-70000 categories and elements (specification evaluated in Python there); object / string / categorical '
+                'Series, pd.Index, tables with one / many / equally named columns, missing cells, MultiIndex, no rows; sequences of 141-306 residues; '
+                'missing elements; every call form (parameters left to their documented defaults, keywords, stray / pass-through optimiser options, '
+                'bounds as tuple / ndarray); NaN and non-integer entries, counts to 1e15, cmin to 1000, fits of 1..1e4 counts, true exponent outside '
+                'the bounds; call sequences on ONE object (repeated, refilled in place) for subsample / downsample / powerlaw_mle_alpha; chi-square '
+                'tests at 300 / 1000 / 1500 items and with the four functions interleaved on the shared generator.')
+    check_subsample(ctx, gen_subsample_cases(ctx) + gen_subsample_wide(ctx), 'main')
     if len(ctx.violations) < 20:
-        check_downsample(ctx, gen_downsample_cases(ctx))
+        check_subsample_sequences(ctx, gen_subsample_sequences(ctx))
     if len(ctx.violations) < 20:
-        check_powerlaw_sample(ctx, gen_powerlaw_cases(ctx))
+        check_downsample(ctx, gen_downsample_cases(ctx) + gen_downsample_wide(ctx))
     if len(ctx.violations) < 20:
-        check_mle_closed(ctx, gen_mle_cases(ctx))
+        check_downsample_sequences(ctx, gen_downsample_sequences(ctx))
     if len(ctx.violations) < 20:
-        check_mle_exact(ctx, gen_exact_cases(ctx))
+        check_huge(ctx)
+    if len(ctx.violations) < 20:
+        check_powerlaw_sample(ctx, gen_powerlaw_cases(ctx) + gen_powerlaw_wide(ctx))
+    if len(ctx.violations) < 20:
+        check_mle_closed(ctx, gen_mle_cases(ctx) + gen_mle_wide(ctx))
+    if len(ctx.violations) < 20:
+        check_mle_exact(ctx, gen_exact_cases(ctx) + gen_exact_wide(ctx))
+    if len(ctx.violations) < 20:
+        check_mle_sequences(ctx, gen_mle_sequences(ctx))
     if len(ctx.violations) < 20:
         uniformity_tests(ctx)
     _shrink_first(ctx)
@@ -717,14 +1508,21 @@ def replay(ctx, obj):
     r = obj['replay']
     f = r.get('func')
     if f == 'subsample':
-        check_subsample(ctx, [(tuple(r['counts']), r['n'], r['numpy_seed'], r.get('container', 'list'))], 'replay')
+        check_subsample(ctx, [(tuple(r['counts']), r['n'], r['numpy_seed'], r.get('container', 'list'), r.get('n_type', 'int'))], 'replay')
+    elif f == 'subsample_sequence':
+        check_subsample_sequences(ctx, [(r['container'], [tuple(st) for st in r['steps']])])
     elif f == 'downsample':
-        check_downsample(ctx, [(r['values'], r['container'], r.get('labels'), r['maxseqs'], r['numpy_seed'])])
+        check_downsample(ctx, [(r['values'], r['container'], r.get('labels'), r['maxseqs'], r['numpy_seed'], r.get('maxseqs_type', 'int'))])
+    elif f == 'downsample_sequence':
+        check_downsample_sequences(ctx, [(r['container'], r.get('labels'), [tuple(st) for st in r['steps']])])
     elif f == 'powerlaw_sample':
-        check_powerlaw_sample(ctx, [(r['size'], r['xmin'], r['alpha'], r['numpy_seed'])])
+        check_powerlaw_sample(ctx, [(r['size'], r['xmin'], r['alpha'], r['numpy_seed'], r.get('form', 'pos3'),
+                                     tuple(r['types']) if r.get('types') else None)])
     elif f == 'powerlaw_mle_alpha' and r.get('method') == 'exact':
-        check_mle_exact(ctx, [(r['counts'], r['cmin'], None if r.get('default_bounds') else tuple(r['bounds']))])
+        check_mle_exact(ctx, [(r['counts'], r['cmin'], None if r.get('default_bounds') else tuple(r['bounds']), r.get('options') or {})])
     elif f == 'powerlaw_mle_alpha':
-        check_mle_closed(ctx, [(r['counts'], r['cmin'], r['method'], r.get('container', 'list'))])
+        check_mle_closed(ctx, [(r['counts'], r['cmin'], r['method'], r.get('container', 'list'), r.get('form', 'pos'))])
+    elif f == 'mle_sequence':
+        check_mle_sequences(ctx, [(r['container'], [tuple(st) for st in r['steps']])])
     else:
         run(ctx)
